@@ -23,6 +23,9 @@ class Und(Exception):
     pass
 
 
+_TE = [None]      # the term engine of the constructor being read (for terms that refer to a call site)
+
+
 def ival(t, n):
     """integer value of an index expression for slice length n"""
     t = strip(t)
@@ -77,8 +80,25 @@ def slice_iv(t, n):
                 return (lo + vals[0], lo + vals[1])
             if kind == "RangeFull":
                 return (lo, hi)
-    if mir.is_call(t, "as_slice") or mir.is_call(t, "deref") or mir.is_call(t, "as_ref"):
+    if mir.is_call(t, "as_slice") or mir.is_call(t, "deref") or mir.is_call(t, "as_ref") or mir.is_call(t, "deref_mut") or \
+            mir.is_call(t, "as_mut_slice"):
         return slice_iv(t[2][0], n)
+    # an owned Vec cut in two: `let r = v.split_off(m)` leaves [0, m) in v and returns [m, len)
+    if t[0] == "mut" and t[2].name == "split_off" and _TE[0] is not None:
+        lo, hi = slice_iv(t[3], n)
+        cs = _TE[0].calls_by_bb.get(t[1][0]) if isinstance(t[1], tuple) and t[1] else None
+        if cs is not None and len(cs.args) == 2:
+            return (lo, lo + ival(cs.args[1], hi - lo))
+    if mir.is_call(t, "split_off") and len(t[2]) == 2 and _TE[0] is not None:
+        base = t[2][0]
+        if isinstance(base, tuple) and base and base[0] == "mutref":
+            site = t[3][0] if len(t) > 3 and isinstance(t[3], tuple) and t[3] else None
+            v = _TE[0].state_in.get(site, {}).get(base[1]) if site is not None else None
+            if v is not None:
+                lo, hi = slice_iv(v, n)
+                return (lo + ival(t[2][1], hi - lo), hi)
+    if t[0] == "mutref" and _TE[0] is not None:
+        raise Und("slice expression through a mutable borrow")
     raise Und("slice expression %s" % show(t)[:50])
 
 
@@ -113,9 +133,11 @@ def run(prog):
         fns = [g for g in prog.lib_fns if g.name == name and MODULE.get(name, "repr::vtree") in g.npath and "{closure" not in g.npath]
         if len(fns) != 1:
             raise CheckerError("VT: constructor %s not found" % name)
-        fn = fns[0]
+        fn = prog.default_args_worker(fns[0])     # `even_split` as the default path of `even_split_with(.., right_linear)`
+        name = fn.name
+        _TE[0] = fn.terms
         r = fn.terms.ret
-        key = "%s:slice-partition" % fn.npath
+        key = "%s:slice-partition" % fns[0].npath
         alts = [strip(a) for a in leaves(r)]
         rec = [a for a in alts if any(mir.is_call(x, name) for x in mir.subterms(a))]
         errs = []
